@@ -92,7 +92,7 @@ func runC06(c *Ctx) {
 	c.Rule("C06.R3", "PDT", "admission table of BasicRule equals the documented precedence on all feature combinations", 1)
 	c.Rule("C06.R4", "PDT", "GetDNSBasicRule admission table; $replace makes the result nil", 2)
 	c.Rule("C06.R5", "PDT", "GetBasicResult: replace rules => nil; no basic rule => document rule; else basic rule", 1)
-	c.Rule("C06.R6", "WIRE", "engines pass (request rules, referrer rules matched as document) in this order", 2)
+	c.Rule("C06.R6", "WIRE", "engines pass (request rules, referrer rules matched as document) in this order; verdict only via GetBasicResult", 3)
 
 	c.Rule("C06.R7", "COV/SYM", "rules disabled by badfilter: the twin test compares every modifier field of the two rules (shared with C08.R3/R4)", 14)
 	a := &anchors{c: c, rule: "C06.R1"}
@@ -111,6 +111,7 @@ func runC06(c *Ctx) {
 			checkTwinComparison(c, "C06.R7", "C06.R7", tw, K["OptionBadfilter"])
 		}
 	}
+	importRules(c, runC08, map[string]string{"C08.R1": "C06.R8", "C08.R2": "C06.R8"}, map[string]string{"C06.R8": "rules disabled by badfilter never survive the filter, whatever their position (shared with C08.R1/R2)"})
 	inl := inlineOnly("(*rules.NetworkRule).isDocumentWhitelistRule", "(*rules.NetworkRule).IsOptionEnabled", "(*rules.NetworkRule).IsGeneric")
 	nilOf := func(u *U, e *E) *E { return u.mk("nil", "", e.Typ) }
 
@@ -537,6 +538,19 @@ func runC06(c *Ctx) {
 				}
 			}
 			c.Check(bad == "", "C06.R6", "NetworkEngine.Match -> NewMatchingResult(MatchAll(r), nil)", pos, "wired as documented", bad)
+			// the verdict is GetBasicResult of that result (or nil when nothing matched), never a rule picked another way
+			bad = ""
+			for _, r := range s.Rets {
+				for leaf := range u.Leaves(r.Vals[0]) {
+					if leaf.IsNil() {
+						continue
+					}
+					if !(leaf.Op == "call" && strings.HasSuffix(leaf.Aux, "MatchingResult).GetBasicResult") && leaf.Args[0].Op == "call" && leaf.Args[0].Aux == calleeName(nmr)) {
+						bad = "NetworkEngine.Match can return " + clip(u.Show(leaf), 100) + " without going through NewMatchingResult/GetBasicResult: a lone $dnsrewrite, $badfilter or $stealth rule would become the verdict, and the verdict would depend on how rules are split across lists"
+					}
+				}
+			}
+			c.Check(bad == "", "C06.R6", "NetworkEngine.Match returns GetBasicResult(NewMatchingResult(...)) or nil", pos, "every non-nil result is the selected basic result", bad)
 		}
 	}
 }
